@@ -38,10 +38,10 @@ def sint(v, sp):
     return ('-' if v < 0 else '') + (hex(abs(v)) if k == 1 else bin(abs(v)))
 
 
-def text32(e, sp, immtext=None):
+def text32(e, sp, immtext=None, regtext=None):
     n = e['name']
     sint = (lambda v, _sp: immtext) if immtext is not None else globals()['sint']   # noqa: the operand given by name
-    r = lambda k: sreg(e[k], sp + (7 if k == 'rs1' else (11 if k == 'rs2' else 0)))  # noqa
+    r = lambda k: regtext[k] if regtext and k in regtext else sreg(e[k], sp + (7 if k == 'rs1' else (11 if k == 'rs2' else 0)))  # noqa
     if n == 'ebreak':
         return n
     if n in ('addi', 'andi', 'jalr', 'lw'):
@@ -128,6 +128,24 @@ def elig_shard(asm, acc, sh, deadline):
                 elif not lay2.obs.ok:
                     core.add_viol(acc, 'the expansion of legal halfword %#06x with a constant operand (%s) is refused with -c: %s' % (h, src.strip().replace('\n', ' ; '), lay2.obs.exc['msg']),
                                   {'kind': 'elig', 'h': h, 'sp': sp, 'alone': 'const'}, {})
+        if (sh['tier'] == 'thorough' or ((h * 2654435761) >> 7) % 6 == sh['seed'] % 6) and any(k in e for k in ('rd', 'rs1', 'rs2')):
+            # the same instruction with its registers named through register-alias constants (x0 included: `ZERO = zero`)
+            regtext, defs = {}, []
+            for k in ('rd', 'rs1', 'rs2'):
+                if k in e:
+                    nm = 'RA_%s' % k
+                    defs.append('%s = %s' % (nm, ['x%d' % e[k], ABI[e[k]], str(e[k])][(h + len(k) + e[k]) % 3]))
+                    regtext[k] = nm
+            line3 = text32(e, sp, regtext=regtext)
+            lay3 = monitors.layout(asm, defs + [line3], compress=True)
+            acc['n'] += 1
+            what = ' ; '.join(defs + [line3])
+            if lay3.obs.ok and lay3.chunks is not None:
+                acc['ctr']['register_alias_cases'] += 1
+                judge_line(acc, h, e, what, lay3.chunks[len(defs)][1], {'sp': sp, 'alone': 'alias'})
+            elif not lay3.obs.ok:
+                core.add_viol(acc, 'the expansion of legal halfword %#06x with aliased registers (%s) is refused with -c: %s' % (h, what, lay3.obs.exc['msg']),
+                              {'kind': 'elig', 'h': h, 'sp': sp, 'alone': 'alias'}, {})
         if len(batch) >= 400:
             flush(asm, acc, batch)
             batch = []
